@@ -29,25 +29,44 @@ Lemma parse_cell_zero_roots : parse_cell deser_root_ids doc_zero_roots = Err EOt
 Proof. vm_compute. reflexivity. Qed.
 
 (** * padding of the Fift text by rounding the length up *)
-(* the 5 bits 10110 read at a byte-aligned position of a source that continues
-   with 111...: ReadBits copies the whole byte, the result's buffer is 10110111 *)
-Definition stale_value : res bs :=
+(* Since the repair of ReadBits (its byte-aligned path used to copy whole bytes
+   and leave the source's following bits behind the length) the value ReadBits
+   returns has a CLEAN buffer: 10110 read at a byte-aligned position of a source
+   that continues with 111... *)
+Definition read_value : res bs :=
   read_bs (repeat false 8) [true; false; true; true; false] [true; true; true; false; false; false; false; false; false; false; false].
 
-Lemma stale_value_buffer :
-  exists r, stale_value = Ok r /\ abs r = [true; false; true; true; false]
-            /\ buf r = [true; false; true; true; false; true; true; true].
+Lemma read_value_buffer_is_clean :
+  exists r, read_value = Ok r /\ abs r = [true; false; true; true; false]
+            /\ buf r = [true; false; true; true; false; false; false; false].
 Proof. vm_compute. eexists. repeat split. Qed.
 
+(* ... so the rounding design is NOT refuted through ReadBits any more: on a
+   clean buffer it prints the same text *)
+Lemma roundup_agrees_on_read_value :
+  (do r <- read_value; print_bitstring_bs_roundup r) = (do r <- read_value; print_bitstring_bs r).
+Proof. vm_compute. reflexivity. Qed.
+
+(* Bits behind the length are still reachable through the public API: the
+   exported On(n) sets a bit below the capacity without touching the length
+   (Model.BitStringD.set_bit), and Buffer() hands out the byte slice.
+   NewBitString(8); WriteBit 1,0,1,1,0; On(5); On(6); On(7): *)
+Definition on_value : bs := on_bs [true; false; true; true; false] [true; true; true].
+
+Lemma on_value_buffer :
+  abs on_value = [true; false; true; true; false]
+  /\ buf on_value = [true; false; true; true; false; true; true; true].
+Proof. vm_compute. split; reflexivity. Qed.
+
 (* the encoder as it is prints B4_ (10110 + tag 1 + zeros) and it parses back *)
-Lemma stale_value_prints_its_bits :
-  (do r <- stale_value; print_bitstring_bs r) = Ok (quote [66; 52; 95])
+Lemma on_value_prints_its_bits :
+  print_bitstring_bs on_value = Ok (quote [66; 52; 95])
   /\ parse_bitstring (quote [66; 52; 95]) = Ok [true; false; true; true; false].
 Proof. vm_compute. split; reflexivity. Qed.
 
 (* rounding the length up instead prints B7_, which parses to 1011011: a
-   different, longer bit string -- silent corruption of addr_extern / addr_var *)
+   different, longer bit string *)
 Lemma print_roundup_refuted :
-  (do r <- stale_value; print_bitstring_bs_roundup r) = Ok (quote [66; 55; 95])
+  print_bitstring_bs_roundup on_value = Ok (quote [66; 55; 95])
   /\ parse_bitstring (quote [66; 55; 95]) = Ok [true; false; true; true; false; true; true].
 Proof. vm_compute. split; reflexivity. Qed.
